@@ -113,7 +113,7 @@ def _cli_batch(args):
             st, out, err = core.run_limited([chibicc, "-cc1", "-E"] + opts + ["-cc1-input", src, src], cwd=wd)
             n += 1
             # the tokens of a probe may be spread over several output lines (white space is not significant)
-            parts = re.split(r"(?m)^P(\d+):", out)
+            parts = re.split(r"(?m)^P(\d+)\s*:", out)
             got = {parts[j]: " ".join(parts[j + 1].split()) for j in range(1, len(parts) - 1, 2)}
             problem = None
             if st != 0:
@@ -186,7 +186,7 @@ def _cli_forms_batch(args):
                 f.write(text)
             st, out, err = core.run_limited([chibicc, "-cc1", "-E"] + opts + ["-cc1-input", src, src], cwd=wd)
             n += 1
-            parts = re.split(r"(?m)^P(\d+):", out)
+            parts = re.split(r"(?m)^P(\d+)\s*:", out)
             got = {parts[j]: "".join(parts[j + 1].split()) for j in range(1, len(parts) - 1, 2)}
             problem = None
             if st != 0:
@@ -242,7 +242,14 @@ def run(ctx):
         for sm in re.finditer(r"SAMPLE (.*)", o):
             ctx.sample({"level": 1, "config": list(cfg), "history_to_a_reached_state": sm.group(1).strip()}, limit=3)
     if rehashes == 0 or reuse == 0:
-        raise core.HarnessError("vacuous BFS: rehashes=%d tombstone-reuse=%d" % (rehashes, reuse))
+        # the configurations are sized for the geometry of the pinned hashmap.c (16 buckets, grow at 70 %); a tree with another
+        # geometry is explored without reaching a rehash: that is lost coverage of level 1 (level 2 grows the real table), not an alarm
+        hm = open(os.path.join(ctx.tree, "hashmap.c"), errors="replace").read()
+        geo = (re.search(r"#define\s+INIT_SIZE\s+(\d+)", hm), re.search(r"#define\s+HIGH_WATERMARK\s+(\d+)", hm))
+        std = geo[0] and geo[1] and (int(geo[0].group(1)), int(geo[1].group(1))) == (16, 70)
+        if std or reuse == 0:
+            raise core.HarnessError("vacuous BFS: rehashes=%d tombstone-reuse=%d" % (rehashes, reuse))
+        ctx.incomplete("hashmap.c has another table geometry than the BFS key universes were sized for: no rehash was reached at level 1 (%d states explored)" % states)
     ctx.cover(states=states, transitions=transitions, bfs_rehash_transitions=rehashes,
               bfs_tombstone_reuse_transitions=reuse, bfs_configs=per_cfg)
 
@@ -324,7 +331,7 @@ def run(ctx):
                               files={"h.c": text, "opts.txt": " ".join(opts) + "\n",
                                      "expected.txt": "\n".join("P%d: %s" % (i, _expected(names, hist, i, init)) for i in range(len(hist))) + "\n"},
                               replay=("$CHIBICC -cc1 -E $(cat opts.txt) -cc1-input h.c h.c > got.txt 2>&1 || exit 1\n"
-                                      "tr '\\n' ' ' < got.txt | sed 's/P\\([0-9]*\\):/\\nP\\1:/g' | sed 's/  */ /g; s/ *$//' | grep '^P' > got1.txt\n"
+                                      "tr '\\n' ' ' < got.txt | sed 's/P\\([0-9]*\\) *:/\\nP\\1:/g' | sed 's/  */ /g; s/ *$//' | grep '^P' > got1.txt\n"
                                       "while read l; do k=${l%%:*}; e=$(grep \"^$k:\" expected.txt); [ -z \"$e\" ] && continue; "
                                       "python3 -c 'import sys; g=sys.argv[1].split()[1:]; e=sys.argv[2].split()[1:]; sys.exit(0 if len(g)==len(e) and all(x==y or x==\"*\" for x,y in zip(e,g)) else 1)' \"$l\" \"$e\" || exit 1; done < got1.txt\nexit 0"))
         ctx.sample({"level": 2, "name_set": label, "names": names, "history": [list(x) for x in hists[len(hists) // 3]],
@@ -353,7 +360,7 @@ def run(ctx):
                                   "opts = [l for l in open('opts.txt').read().split('\\n') if l]\n"
                                   "r = subprocess.run([os.environ['CHIBICC'], '-cc1', '-E'] + opts + ['-cc1-input', 'h.c', 'h.c'], capture_output=True, text=True)\n"
                                   "if r.returncode != 0: sys.exit(1)\n"
-                                  "parts = re.split(r'(?m)^P(\\d+):', r.stdout)\n"
+                                  "parts = re.split(r'(?m)^P(\\d+)\\s*:', r.stdout)\n"
                                   "got = {parts[j]: ''.join(parts[j + 1].split()) for j in range(1, len(parts) - 1, 2)}\n"
                                   "exp = dict(l[1:].split(':', 1) for l in open('expected.txt').read().split('\\n') if l)\n"
                                   "sys.exit(1 if any(got[k] != exp[k] for k in got if k in exp) else 0)\nPYEOF"))
